@@ -121,7 +121,7 @@ class World(object):
         W.sockopt_fail = c.get('sockopt_fail')         # connections whose TCP-MD5 socket option call fails (C12)
         W.nodelay_fail = c.get('nodelay_fail')         # connections whose TCP_NODELAY socket option call fails (C12)
         args = ['--bgp-local_as=%d' % c['las'], '--bgp-remote_as=%d' % c['ras'],
-                '--bgp-remote_addr=' + PEER, '--bgp-local_addr=' + LOCAL,
+                '--bgp-remote_addr=' + PEER, '--bgp-local_addr=' + c.get('local_addr', LOCAL),
                 '--time-connect_retry_time=%d' % c['crt'], '--time-hold_time=%d' % c['hold'],
                 '--time-idle_hold_time=%d' % c['idle'], '--time-bgp_peer_call_later_time=0',
                 '--rest-username=' + c['user'], '--rest-password=' + c['password'],
